@@ -635,6 +635,13 @@ def gen_accounting_case(rng, tier, hostile=None, hft=None):
         cfg["H"] = {"class": "ScriptHFTAgent", "numAgents": n_hft, "markets": list(names), "cashAmount": 5000,
                     "assetVolume": 10, "program": prog()}
         cfg["simulation"]["agents"].append("H")
+    if rng.random() < 0.4 and all(cfg[n]["marketPrice"] >= 200 * cfg[n]["tickSize"] for n in names):
+        # built-in agents next to the scripted ones (their callbacks are observed at the Agent base class)
+        cfg["FCN"] = {"class": "FCNAgent", "numAgents": rng.randint(3, 10), "markets": list(names), "assetVolume": 50,
+                      "cashAmount": 10000, "fundamentalWeight": {"expon": [1.0]}, "chartWeight": {"expon": [0.3]},
+                      "noiseWeight": {"expon": [1.0]}, "noiseScale": 0.01, "timeWindowSize": [3, 20],
+                      "orderMargin": [0.0, 0.05]}
+        cfg["simulation"]["agents"].append("FCN")
     flags = rng.choice([
         [(True, True)],
         [(True, False), (True, True)],
@@ -653,7 +660,7 @@ def gen_accounting_case(rng, tier, hostile=None, hft=None):
     case = {"drive": "runner", "seed": rng.randrange(1 << 31), "config": cfg, "profile": "accounting"}
     if hostile:
         # one agent group carries the hostile action; it fires rarely so that the run first builds state
-        g = cfg[rng.choice([n for n in cfg["simulation"]["agents"]])]
+        g = cfg[rng.choice([n for n in cfg["simulation"]["agents"] if "program" in cfg[n]])]
         g["program"]["actions"].append([1, {"a": hostile}])
         case["hostile"] = hostile
     return case
